@@ -13,6 +13,7 @@ from ..core import where_of, trace_of
 from ..interp import fmt, contains, subterms
 from ..model import AnalysisError, ClassInfo
 from .. import q
+from .. import roles
 from .. import wake
 
 TERMINAL = {"set_result", "set_exception", "set_exception_info", "cancel"}
@@ -195,8 +196,7 @@ def check(ctx, rep):
     # ---- combinators
     for cname in ("Zipper", "OrOperation", "AndOperation"):
         ci = prog.cls(cname)
-        o, hd = ci.lookup("handle_done")
-        rep.require(hd is not None, "%s.handle_done not found" % cname)
+        hd = roles.input_callback(ctx, ci)
         ps, it = ctx.paths(hd, ci, depth=depth)
         D = ("attr", ("param", "self"), "out")
         nd = 0
@@ -207,8 +207,8 @@ def check(ctx, rep):
             nd += 1
             sig = q.path_sig(p)
             ok = p.status == "return" and any(terminal_on(e, D, it, p) for e in p.events)
-            rep.ob("R-DECIDED", "%s.handle_done decided %s" % (cname, _short(sig)), ok, "the operation is marked decided but the output is neither resolved nor cancelled on this path (status %s)" % p.status, where_of(hd), trace_of(p))
-        rep.require(nd >= 2, "%s.handle_done: no deciding paths found" % cname)
+            rep.ob("R-DECIDED", "%s input callback decided %s" % (cname, _short(sig)), ok, "the operation is marked decided but the output is neither resolved nor cancelled on this path (status %s)" % p.status, where_of(hd), trace_of(p))
+        rep.require(nd >= 2, "%s.%s: no deciding paths found" % (cname, hd.name))
 
 
 def _short(sig):
